@@ -991,9 +991,22 @@ def _fields(ctx, o):
         o.refute(cl, ctor, f"{p}=", f"Task.clone passes `{p}={src(bind[p])[:40]}` to the constructor: the copy is wired into the "
                                     f"source's relations (and the source's lists are modified); relations are rebuilt by the WBS")
 
+    def untuple(e):
+        """`a, b = self.x, self.y` (tuple unpacking is not followed by the Expander): the element bound to the name"""
+        if isinstance(e, ast.Name):
+            ds = ex.flow.defs_of(e.id)
+            if len(ds) == 1 and isinstance(ds[0].stmt, ast.Assign) and len(ds[0].stmt.targets) == 1 and ds[0].node is not None \
+                    and not cfg.conditions(ds[0].node) and not cfg.enclosing_loops(ds[0].node):
+                tg, val = ds[0].stmt.targets[0], ds[0].stmt.value
+                if isinstance(tg, ast.Tuple) and isinstance(val, ast.Tuple) and len(tg.elts) == len(val.elts):
+                    for t, v in zip(tg.elts, val.elts):
+                        if isinstance(t, ast.Name) and t.id == e.id and not any(isinstance(x, ast.Starred) for x in tg.elts + val.elts):
+                            return ex.expand(v, ds[0].node)
+        return e
+
     def reads(expr, field=None, attr=None):
         """does expr read self.<field> (private, directly or through a single-return getter) / self.<attr>"""
-        e = ex.expand(expr, cfg.node_containing(ctor))
+        e = untuple(ex.expand(expr, cfg.node_containing(ctor)))
         m = match(f"{sn}.$a", e)
         if not m:
             return False
@@ -1040,7 +1053,7 @@ def _fields(ctx, o):
         elif reads(arg, field=fld):
             o.site(cl, ctor, f"{unmangle(fld)} -> {feed}={src(arg)}")
         else:
-            e = ex.expand(arg, cfg.node_containing(ctor))
+            e = untuple(ex.expand(arg, cfg.node_containing(ctor)))
             if match(f"{sn}.$a", e):
                 o.refute(cl, ctor, f"{feed}={src(arg)}", f"constructor parameter `{feed}` (field {unmangle(fld)}) receives `{src(arg)}`, "
                                                          f"which reads a different field of the source")
@@ -1617,18 +1630,26 @@ class CloneAnalysis:
             return lambda env, r=r: env[r]
         return None
 
-    def _skip_verdict(self, L: Labeller, atoms, rel: str, origin, cn):
+    def _skip_verdict(self, L: Labeller, atoms, rel: str, origin, cn, others=()):
         """the store of relation `rel` runs under the path condition `atoms`.  -> (verdict, implies_nonempty, witness) with verdict
         'none' (unconditional) | 'benign' (skipped only when the source's `rel` is empty / None: a fresh copy already has that
         value) | 'bad' (skipped for some source task whose `rel` is non-empty; witness says which) | 'unknown'"""
         if not atoms:
             return 'none', False, None
-        fs = []
-        for atom, pol in atoms:
-            f = self._rel_prop(L, atom, origin, cn)
-            if f is None:
-                return 'unknown', False, None
-            fs.append((f, pol))
+
+        def formula(ats, at_node):
+            out = []
+            for atom, pol in ats:
+                f = self._rel_prop(L, atom, origin, at_node)
+                if f is None:
+                    return None
+                out.append((f, pol))
+            return out
+        fs = formula(atoms, cn)
+        if fs is None:
+            return 'unknown', False, None
+        # other assignments of the same relation on the same copy (if/else forms): the relation is assigned when any of them runs
+        alt = [formula(a, n) for a, n in others]
         import itertools
         witness, implies = None, True
         for bits in itertools.product((False, True), repeat=len(ALL_RELS)):
@@ -1637,6 +1658,10 @@ class CloneAnalysis:
             if run and not env[rel]:
                 implies = False
             if not run and env[rel] and (witness is None or sum(bits) < sum(witness.values())):
+                if any(a is None for a in alt):
+                    return 'unknown', False, None
+                if any(all(f(env) == pol for f, pol in a) for a in alt):
+                    continue
                 witness = env
         if witness is not None:
             return 'bad', implies, witness
@@ -1673,7 +1698,17 @@ class CloneAnalysis:
                 continue
             rhs = L.expand_acc(st.value, cn)
             stmt_atoms = self._atoms(L, cn)
-            skip, implies, witness = self._skip_verdict(L, stmt_atoms, rel, rl.origin, cn)
+            if rel == 'parent' and isinstance(rhs, ast.Constant) and rhs.value is None:
+                skip, implies, witness = 'none', False, None        # `copy.parent = None` branch of an if/else form: judged below
+            else:
+                others = []
+                for st2, tgt2, _ in facts.attr_stores(f):
+                    cn2 = L.cfg.node_of(st2)
+                    if st2 is not st and tgt2.attr == rel and cn2 is not None:
+                        r2 = L.lab(L.expand(tgt2.value, cn2), cn2, {})
+                        if r2.kind == 'CLONE' and r2.origin == rl.origin:
+                            others.append((self._atoms(L, cn2), cn2))
+                skip, implies, witness = self._skip_verdict(L, stmt_atoms, rel, rl.origin, cn, others)
             if skip == 'bad':
                 rest = [r for r in ALL_RELS if r != rel]
                 case = ', '.join(('' if witness[r] else 'no ') + r for r in rest)
@@ -1953,6 +1988,9 @@ class CloneAnalysis:
             if bad:
                 self.refute(g, st, gen.iter, f"the roots of the copy are taken from {'/'.join(bad)}(roots): root order of the source is lost")
                 continue
+            mt = match("_to_list($r)", it)
+            if mt:                                       # __clone normalises its parameter first: roots = _to_list(roots)
+                it = strip_seq_wrappers(mt['r'])[0]
             if not (isinstance(it, ast.Name) and it.id == roots_p):
                 il = G.lab(it, cn, {})
                 if il.kind in ('MAPPEDS', 'MAP'):
